@@ -19,6 +19,11 @@
 #include "hll.hpp"
 #include "cpc_sketch.hpp"
 #include "theta_sketch.hpp"
+#include "bloom_filter.hpp"
+#include "var_opt_union.hpp"
+#include "tdigest.hpp"
+#include "count_min.hpp"
+#include "density_sketch.hpp"
 #undef private
 #undef protected
 
@@ -42,6 +47,7 @@ struct Obj {
   virtual void query() = 0;                       // a read-only query that may build caches
   virtual uint64_t digest() const = 0;
   virtual Obj* roundtrip() const = 0;             // deserialize(serialize(*this))
+  virtual Obj* result() const = 0;                // union.get_result()
 };
 
 inline uint64_t fnv(const uint8_t* p, size_t n, uint64_t h = 0xcbf29ce484222325ULL) {
@@ -49,6 +55,16 @@ inline uint64_t fnv(const uint8_t* p, size_t n, uint64_t h = 0xcbf29ce484222325U
   return h;
 }
 struct unsupported : std::logic_error { unsupported(): std::logic_error("unsupported operation") {} };
+
+// copy assignment goes through this hook so that a type whose operator=(const&) does not compile can be routed around
+template<typename S> struct copy_assigner { static void go(S& a, const S& b) { a = b; } };
+#ifndef VERIF_VOU_COPY_ASSIGN
+// var_opt_union::operator=(const var_opt_union&) does not compile (std::swap(allocator_, other.allocator_) with a const
+// 'other', var_opt_union_impl.hpp:82; finding var_opt_union_copy_assign_does_not_compile, harness drv_ledger_eb.cpp)
+template<typename T, typename A> struct copy_assigner<var_opt_union<T, A>> {
+  static void go(var_opt_union<T, A>& a, const var_opt_union<T, A>& b) { var_opt_union<T, A> tmp(b); a = std::move(tmp); }
+};
+#endif
 
 template<typename D, typename S> struct ObjBase : Obj {
   S s;
@@ -65,7 +81,7 @@ template<typename D, typename S> struct ObjBase : Obj {
   }
   Obj* copy() const override { return new D(static_cast<const D&>(*this).s); }
   Obj* move_out() override { return new D(std::move(s)); }
-  void copy_assign(const Obj& o) override { s = down(o).s; }
+  void copy_assign(const Obj& o) override { copy_assigner<S>::go(s, down(o).s); }
   void move_assign(Obj& o) override { s = std::move(down(o).s); }
   void merge(const Obj&) override { throw unsupported(); }
   void merge_move(Obj&) override { throw unsupported(); }
@@ -73,6 +89,7 @@ template<typename D, typename S> struct ObjBase : Obj {
   void trim() override { throw unsupported(); }
   void query() override {}
   Obj* roundtrip() const override { throw unsupported(); }
+  Obj* result() const override { throw unsupported(); }
 };
 
 // ---- 0: KLL ----------------------------------------------------------------------------------
@@ -241,11 +258,113 @@ struct ThObj : ObjBase<ThObj, th_t> {
   uint64_t digest() const override { auto c = s.compact(true); auto b = c.serialize(); return fnv(b.data(), b.size()); }
 };
 
+
+// ---- 10: Bloom filter in every memory mode ----------------------------------------------------------------
+// caller-owned buffers (wrap / writable_wrap / initialize_by_*) live in a per-case pool and are registered with the
+// tracking state: handing one of them to the allocator raises F_CALLER_MEMORY
+typedef bloom_filter_alloc<talloc<uint8_t>> bf_t;
+inline std::vector<std::unique_ptr<uint8_t[]>>& caller_pool() { static std::vector<std::unique_ptr<uint8_t[]>> p; return p; }
+inline uint8_t* caller_buffer(size_t n) {
+  std::unique_ptr<uint8_t[]> b(new uint8_t[n ? n : 1]); memset(b.get(), 0, n);
+  uint8_t* p = b.get(); st().caller[reinterpret_cast<uintptr_t>(p)] = n ? n : 1; caller_pool().push_back(std::move(b)); return p;
+}
+struct BfObj : ObjBase<BfObj, bf_t> {
+  using ObjBase::ObjBase;
+  int kind() const override { return 10; }
+  void update(int64_t v, int64_t, bool, Out&) override { s.update((uint64_t)v); }
+  void merge(const Obj& o) override { s.union_with(down(o).s); }
+  void reset() override { s.reset(); }
+  // memory mode as the object reports it: 1 owned, 2 wrapped, 4 read-only
+  long retained() const override { return (s.is_memory_owned() ? 1 : 0) + (s.is_wrapped() ? 2 : 0) + (s.is_read_only() ? 4 : 0); }
+  void query() override { (void)s.query((uint64_t)1); (void)s.get_bits_used(); }
+  uint64_t digest() const override { auto b = s.serialize(); return fnv(b.data(), b.size()); }
+  Obj* roundtrip() const override { auto b = s.serialize(); return new BfObj(bf_t::deserialize(b.data(), b.size(), s.allocator_)); }
+};
+inline Obj* make_bloom(long num_bits, long mode, int arena) {
+  talloc<uint8_t> a(arena);
+  if (num_bits < 1 || num_bits > (1 << 16) || mode < 0 || mode > 3) throw std::invalid_argument("parameter out of range");
+  if (mode == 0) return new BfObj(bf_t::builder::create_by_size((uint64_t)num_bits, 3, 123, a));
+  const size_t len = bf_t::get_serialized_size_bytes((uint64_t)num_bits);
+  uint8_t* mem = caller_buffer(len);
+  if (mode == 1) return new BfObj(bf_t::builder::initialize_by_size(mem, len, (uint64_t)num_bits, 3, 123, a));
+  { bf_t tmp = bf_t::builder::create_by_size((uint64_t)num_bits, 3, 123, a);
+    for (uint64_t i = 0; i < 5; ++i) tmp.update(i * 7919 + 1);
+    auto b = tmp.serialize(); if (b.size() > len) throw std::logic_error("image larger than announced"); memcpy(mem, b.data(), b.size()); }
+  if (mode == 2) return new BfObj(bf_t::writable_wrap(mem, len, a));
+  return new BfObj(bf_t::wrap(mem, len, a));
+}
+
+// ---- 11: var_opt_union (the only owner of a gadget sketch with marks_) ---------------------------------------
+typedef var_opt_union<Item, talloc<Item>> vou_t;
+struct VouObj : ObjBase<VouObj, vou_t> {
+  using ObjBase::ObjBase;
+  int kind() const override { return 11; }
+  void update(int64_t, int64_t, bool, Out&) override { throw unsupported(); }
+  void merge(const Obj& o) override { const VoObj* p = dynamic_cast<const VoObj*>(&o); if (!p) throw std::invalid_argument("kind mismatch"); s.update(p->s); }
+  void merge_move(Obj& o) override { VoObj* p = dynamic_cast<VoObj*>(&o); if (!p) throw std::invalid_argument("kind mismatch"); s.update(std::move(p->s)); }
+  void reset() override { s.reset(); }
+  long retained() const override { return 0; }
+  uint64_t digest() const override { auto b = s.serialize(0, ItemSerde()); return fnv(b.data(), b.size()); }
+  Obj* result() const override { return new VoObj(s.get_result()); }
+};
+
+// ---- 12: t-digest --------------------------------------------------------------------------------------------------
+typedef tdigest<double, talloc<double>> td_t;
+struct TdObj : ObjBase<TdObj, td_t> {
+  using ObjBase::ObjBase;
+  int kind() const override { return 12; }
+  void update(int64_t v, int64_t, bool, Out&) override { s.update((double)v); }
+  void merge(const Obj& o) override { s.merge(down(o).s); }
+  long retained() const override { return (long)s.get_total_weight(); }
+  void query() override { if (!s.is_empty()) { (void)s.get_rank(1.0); (void)s.get_quantile(0.5); } }
+  uint64_t digest() const override { auto b = s.serialize(0, true); return fnv(b.data(), b.size()); }
+  Obj* roundtrip() const override { auto b = s.serialize(0, true); return new TdObj(td_t::deserialize(b.data(), b.size(), s.get_allocator())); }
+};
+
+// ---- 13: count-min -------------------------------------------------------------------------------------------------
+typedef count_min_sketch<uint64_t, talloc<uint64_t>> cmk_t;
+struct CmObj : ObjBase<CmObj, cmk_t> {
+  using ObjBase::ObjBase;
+  int kind() const override { return 13; }
+  void update(int64_t v, int64_t w, bool, Out&) override { s.update((uint64_t)v, (uint64_t)(w <= 0 ? 1 : w)); }
+  void merge(const Obj& o) override { s.merge(down(o).s); }
+  long retained() const override { return (long)s.get_total_weight(); }
+  void query() override { (void)s.get_estimate((uint64_t)1); }
+  uint64_t digest() const override { auto b = s.serialize(); return fnv(b.data(), b.size()); }
+  Obj* roundtrip() const override { auto b = s.serialize(); return new CmObj(cmk_t::deserialize(b.data(), b.size(), 9001, s._allocator)); }   // get_allocator() is declared but never defined (finding count_min_get_allocator_undefined)
+};
+
+// ---- 14: density sketch ------------------------------------------------------------------------------------------------
+// gaussian_kernel<T> only accepts std::vector<T> with the default allocator, so it cannot be used with a user allocator
+// (density_sketch's points are std::vector<T, Allocator>); the harness supplies an allocator-agnostic kernel
+struct AnyKernel {
+  template<typename V1, typename V2> double operator()(const V1& a, const V2& b) const {
+    double d2 = 0; for (size_t i = 0; i < a.size() && i < b.size(); ++i) d2 += (a[i] - b[i]) * (a[i] - b[i]);
+    return 1.0 / (1.0 + d2);
+  }
+};
+typedef density_sketch<double, AnyKernel, talloc<double>> ds_t;
+struct DsObj : ObjBase<DsObj, ds_t> {
+  using ObjBase::ObjBase;
+  int kind() const override { return 14; }
+  void update(int64_t v, int64_t w, bool mv, Out&) override {
+    std::vector<double, talloc<double>> pt(s.get_dim(), 0.0, s.get_allocator());
+    for (size_t i = 0; i < pt.size(); ++i) pt[i] = (double)((v + (int64_t)i * w) % 17) * 0.25;
+    if (mv) s.update(std::move(pt)); else s.update(pt);
+  }
+  void merge(const Obj& o) override { s.merge(down(o).s); }
+  void merge_move(Obj& o) override { s.merge(std::move(down(o).s)); }
+  long retained() const override { return (long)s.get_num_retained(); }
+  void query() override { if (!s.is_empty()) { std::vector<double> pt(s.get_dim(), 0.5); (void)s.get_estimate(pt); } }
+  uint64_t digest() const override { auto b = s.serialize(); return fnv(b.data(), b.size()); }
+};
+
 // factory: kind, two parameters, arena
 inline Obj* make(int kind, long p1, long p2, int arena) {
   // parameters that do not fit the constructor argument types are refused here (no silent truncation);
   // frequent-items tables are limited to 2^12 slots in this harness
-  if (p1 < 0 || p2 < 0 || p1 > 65535 || p2 > 255 || (kind != 0 && kind != 3 && kind != 4 && kind != 5 && kind != 6 && p1 > 255))
+  if (kind == 10) return make_bloom(p1, p2, arena);
+  if (p1 < 0 || p2 < 0 || p1 > 65535 || p2 > 255 || (kind != 0 && kind != 3 && kind != 4 && kind != 5 && kind != 6 && kind < 11 && p1 > 255))
     throw std::invalid_argument("parameter out of range");
   if (kind == 2 && (p1 > 12 || p2 > 12)) throw std::invalid_argument("parameter out of range");
   if ((kind == 1 || kind == 9 || kind == 4) && p2 > 3) throw std::invalid_argument("parameter out of range");
@@ -267,6 +386,10 @@ inline Obj* make(int kind, long p1, long p2, int arena) {
     th_t::builder b{talloc<uint64_t>(arena)};
     b.set_lg_k((uint8_t)p1); b.set_resize_factor((th_t::resize_factor)p2);
     return new ThObj(b.build()); }
+  case 11: return new VouObj((uint32_t)p1, talloc<Item>(arena));
+  case 12: return new TdObj((uint16_t)p1, talloc<double>(arena));
+  case 13: return new CmObj((uint8_t)(p2 ? p2 : 3), (uint32_t)p1, 9001, talloc<uint64_t>(arena));
+  case 14: return new DsObj((uint16_t)p1, (uint32_t)(p2 ? p2 : 2), AnyKernel(), talloc<double>(arena));
   default: throw std::invalid_argument("unknown kind");
   }
 }
